@@ -1,6 +1,7 @@
 // C05 / C06 / C15 harness (flavour I): every graph of G(n) x weighting x k x approximate sequential variant.
 // Private members of BaseApproxSpannerAlgorithm are read for C15 (this TU is compiled with -fno-access-control).
 #include <memory>
+#include <iostream>
 #include "common/runner.hpp"
 #include "common/graphs.hpp"
 #include "common/bigref.hpp"
@@ -219,6 +220,10 @@ static void run_case(vr::Runner &R, const Cfg &cfg, const vg::EdgeList &el, cons
 
 int main(int argc, char **argv) {
     vr::Args A(argc, argv);
+#ifdef PARMCB_LOGGING
+    // harness built against a config.hpp with PARMCB_LOGGING on: the library chats on std::cout; the replay path keeps it
+    if (!A.has("replay-case")) std::cout.setstate(std::ios_base::badbit);
+#endif
     Cfg cfg;
     cfg.variants = vv::parse_variants(A.get("variants", "signed,fvs,iso"));
     for (auto &s : vr::split(A.get("ks", "1,2,3"), ',')) cfg.ks.push_back(s == "n+1" ? -1 : atol(s.c_str()));
